@@ -23,13 +23,13 @@ import (
 const maxHooks = 12 // journal positions in the alphabet (longest journal seen: 9, recorded in the evidence); a longer journal is reported as a cap
 
 var vetoSpace = engine.Space{
-	engine.D("subj", "jwt-at", "opaque-at", "rt", "idt", "ext"),
-	engine.D("actor", "none", "jwt-at", "rt"),
+	engine.D("subj", "jwt-at", "opaque-at", "rt", "idt", "ext", "tp-subj"),
+	engine.D("actor", "none", "jwt-at", "rt", "ext", "tp-act"),
 	engine.D("requested", "access", "none", "refresh", "id"),
 	engine.D("auth", "webjwt", "web", "xonly", "assertion", "post"),
 	engine.D("scopes", "openid", "openid profile"),
 	engine.D("policy", "default", "def-refresh", "def-id"),
-	engine.D("caps", "all", "no-tv"),
+	engine.D("caps", "all", "no-tv", "tv-role"),
 	engine.D("err", "oauth", "plain"),
 	engine.D("hook", func() []string {
 		var s []string
